@@ -45,7 +45,9 @@ struct NoTop {
 // defaults shared by every configuration: how the prototype kernel of the executor is made
 struct CfgCommon {
     static constexpr bool kernelCtorOnly = false;
-    template <class PK, class Conf> static PK make(const Conf& c) { return PK(c); }
+    template <class K> static auto giveParam(K& k, int) -> decltype(k.setParam(0UL), void()) { k.setParam(g_ctx->kernelParam); }
+    template <class K> static void giveParam(K&, long) {}
+    template <class PK, class Conf> static PK make(const Conf& c) { PK k(c); giveParam(k, 0); return k; }
     template <class PK> using TopAlgo = NoTop;
     template <class PK> using TopAlgoTsm = NoTop;
 };
